@@ -534,6 +534,13 @@ impl PrometheusBuilder {
         self.build_with_clock(Clock::new())
     }
 
+    /// Verification hook: builds the recorder with the given clock (used for idle-timeout checks).
+    #[cfg(metrics_verif)]
+    #[doc(hidden)]
+    pub fn verif_build_with_clock(self, clock: Clock) -> PrometheusRecorder {
+        self.build_with_clock(clock)
+    }
+
     pub(crate) fn build_with_clock(self, clock: Clock) -> PrometheusRecorder {
         let inner = Inner {
             registry: Registry::new(GenerationalStorage::new(AtomicStorage)),
